@@ -8,6 +8,11 @@ import (
 )
 
 func validateMaps(env *Environment, errorSink *validation.ErrorSink) *Environment {
+	if len(errorSink.Errors) > 0 {
+		// alias chains are only known to be finite once the reference cycle check has passed
+		return env
+	}
+
 	Visit(env, func(self Visitor, node Node) {
 		m, ok := node.(*Map)
 		if !ok {
